@@ -100,7 +100,7 @@ class Stmt:
             forms = ['info!(ref = request_id; "%s text");', 'info!(a = 1, ref = other; "%s text");', 'info!(ref = "abc"; "%s text");', 'info!(ref = ids::STARTUP, b = 2; "%s text");']
             return forms[s % len(forms)] % m
         if k == "E":   # decoys
-            forms = ['// info!("%s decoy");', 'other!("%s decoy");', 'let s = "info!(\\"%s decoy\\")";', '/* info!("%s decoy"); */', 'infos!("%s decoy");', 'info!(%s_value);']
+            forms = ['// info!("%s decoy");', 'other!("%s decoy");', 'let s = "info!(\\"%s decoy\\")";', '/* info!("%s decoy"); */', 'infos!("%s decoy");', 'info!(%s_value);', 'log::warn!("%s decoy");', 'tracing::info!("%s decoy");', 'syslog::info!("%s decoy");']
             return forms[s % len(forms)] % m
         if k == "F":   # ignored by directive
             forms = ['// breadlog:ignore\n    info!("%s ignored");', '/* BreadLog:Ignore */\n\n    info!("%s ignored");']
@@ -120,6 +120,7 @@ class Tree:
         self.extra = {}       # out-of-scope files: relpath -> bytes
         self.links = {}       # relpath -> target (absolute or relative)
         self.n = 0
+        self.n_big = 0
         big = focus == "C01" and rng.random() < 0.5
         pool = [0, 1, 2, 3, 7, 100, 65535, 70000, 1000000000, 3999999999] + ([U32MAX - 2, U32MAX - 1, U32MAX] if big else [])
         rng.shuffle(pool)
@@ -139,7 +140,12 @@ class Tree:
                     kind = "E"
                 else:
                     kind = "F"
-                st = Stmt(kind, "mk%dz" % self.n, pool.pop() if kind in ("B", "C") else None, rng.randrange(0, 36))
+                ref = None
+                if kind in ("B", "C"):
+                    # focus C01: in a "big" tree the first existing reference sits at the u32 boundary
+                    ref = pool.pop(pool.index(max(pool))) if (big and not self.n_big) else pool.pop()
+                    self.n_big += 1
+                st = Stmt(kind, "mk%dz" % self.n, ref, rng.randrange(0, 36))
                 self.n += 1
                 items.append(st)
                 for _ in range(rng.choice([0, 0, 1, 2])):
@@ -187,7 +193,7 @@ class Tree:
             y += "  structured: %s\n" % ("true" if self.structured else "false")
         if extensions is not None:
             y += "  extensions:\n" + "".join("    - %s\n" % e for e in extensions)
-        y += "  log_macros:\n    - module: log\n      name: info\n"
+        y += "  log_macros:\n    - module: log\n      name: info\n    - module: tracing\n      name: warn\n"
         with open(root + "/" + cfg_dir + "Breadlog.yaml", "w") as f:
             f.write(y)
         for rel in self.files:
@@ -584,6 +590,7 @@ def run_family(pid, tier, seed, n_quick=60, n_thorough=400, only=None):
     os.makedirs(root)
     found = {}
     evals = 0
+    samples = []
     try:
         for i in range(n):
             sp = gen(rng, pid)
@@ -591,6 +598,8 @@ def run_family(pid, tier, seed, n_quick=60, n_thorough=400, only=None):
                 continue
             ob = execute(sp, b["bin"], root, i)
             evals += 1
+            if len(samples) < 2:
+                samples.append({k: (v if k != "files" else {f: t[:400] for f, t in list(v.items())[:2]}) for k, v in ob.desc.items()})
             for prop, what, kw in ob.v:
                 if pid not in prop.split(","):
                     continue
@@ -610,8 +619,8 @@ def run_family(pid, tier, seed, n_quick=60, n_thorough=400, only=None):
                 "rule": "seeded random project trees (1-4 files in nested directories, 0-6 statements each: lacking a reference in 9 shapes, carrying one with IDs from a pool "
                         "including 0 and the u32 boundary, unusable `ref` values, decoys, ignored statements; filler with multi-byte text, tabs, CRLF; out-of-scope look-alike "
                         "files and symlinks), x style x use_cache (omitted/true/false) x lock (absent/consistent/ahead/corrupt); each run through --check, edit, --check, edit "
-                        "from a foreign working directory with a private TMPDIR; compared with a reference model of the generated tree",
-                "samples": [], "wall_s": round(time.time() - t0, 1)})
+                        "from a foreign or relative working directory with a private TMPDIR (usable / missing / on another filesystem); compared with a reference model of the generated tree",
+                "samples": samples, "wall_s": round(time.time() - t0, 1)})
     return res
 
 
